@@ -15,7 +15,11 @@ _THEOREM_NAMES = ["C18_relative_iff", "C18_relative_join", "C18_join_relative", 
                   "C18_stored_relative", "C18_every_recording_stored", "C18_outside_fails",
                   "C18_outside_fails_needs_coherence", "C18_outside_fails_wf", "C18_outside_fails_recordingSet",
                   "C18_outside_fails_dataset", "C18_inside_succeeds", "parse_parts_ok", "parse_root_ok",
-                  "C18_parse_render"]
+                  "C18_parse_render",
+                  # second review
+                  "C18_parse_wf", "C18_parse_render_parse", "C18_relative_join_wf", "C18_render_injective",
+                  "C18_string_level", "C18_relocate_to_none", "C18_relocate_from_none", "C18_recordings_of_mapPath",
+                  "C18_loaded_recordings", "C18_relocate_collection", "C18_passthrough_collection"]
 THEOREMS = [_T + n for n in _THEOREM_NAMES]
 LEVEL_TEXT = ("Lean theorems over a model of POSIX pure paths (parse, render, relative_to, join as pathlib computes "
               "them) and of the AOEF recording adapter inside the C01 model: relative_to succeeds exactly for paths "
